@@ -146,6 +146,10 @@ def _rand_float_path(spt, r):
             closing = (i == n - 1 and r.random() < 0.6)
             revisit = (not closing and r.random() < 0.15)
             end = first if (closing or revisit) else pt()
+            if (closing or revisit) and r.random() < 0.25 and first != 0:
+                # back at the start only up to round-off: a few ulps, or a relative 1e-10 .. 1e-8, away from it (NOT closed)
+                end = r.choice([complex(first.real + 3 * _ulp(first.real), first.imag - 2 * _ulp(first.imag)), first * (1 + 3e-10), first * (1 - 2e-9),
+                                complex(first.real * (1 + 1e-8), first.imag)])
             if end == cur:
                 continue
             if kind == 'line':
@@ -175,6 +179,10 @@ def _rand_float_path(spt, r):
                 rad = complex(r.uniform(0.2, 3) * sc, r.uniform(0.2, 3) * sc)
                 s = P.Arc(cur, rad, r.choice([0.0, 30.0, -45.5, 400.0]), r.random() < 0.5, r.random() < 0.5, end)
             segs.append(s); prev = s; cur = end
+    if segs and r.random() < 0.12 and isinstance(segs[-1], P.Line) and segs[-1].end == segs[0].start and all(a_.end == b_.start for a_, b_ in zip(segs, segs[1:])):
+        # a closed outline drawn twice (or its closing edge retraced): an EARLIER Line equal, by value, to the closing Line
+        dup = [type(x_)(*x_.bpoints()) if not isinstance(x_, P.Arc) else P.Arc(x_.start, x_.radius, x_.rotation, x_.large_arc, x_.sweep, x_.end) for x_ in segs]
+        segs = segs + dup if r.random() < 0.6 else segs + [P.Line(segs[-1].end, segs[-1].start), P.Line(segs[-1].start, segs[-1].end)]
     return (P.Path(*segs) if segs else None), cls
 
 
